@@ -45,6 +45,25 @@ def conn_batches(quick, thorough):
     return f
 
 
+def ctl_batches(kind, quick_n, thorough_n, per=1000):
+    def f(tier):
+        n = thorough_n if tier == "thorough" else quick_n
+        out = []
+        first = 0
+        while first < n:
+            k = min(per, n - first)
+            out.append({"bin": "controlled", "args": [kind, k, first], "name": "controlled %s %d@%d" % (kind, k, first)})
+            first += k
+        return out
+    return f
+
+
+CTL_ASSUMPTIONS = [
+    "controlled build: a copy of /repo/src regenerated on this run with the path root std:: replaced by verif_rt::stdx:: (nothing else) runs under the "
+    "deterministic scheduler and virtual clock of /verif/rt; Mutex/Condvar/mpsc/thread/Instant semantics of verif_rt are trusted",
+    "trace acceptance: the label sequence mapped from the runtime's event log must be an execution of the Lean LTS, and the LTS must predict every returned value",
+]
+
 CONN_ASSUMPTIONS = [
     "the application is sequential in the model (one request handled at a time, in delivery order); concurrency of handlers is covered by C01/C06/C11",
     "pristine crate over loopback TCP/UNIX sockets; the client half-closes after sending (or stays open in mode=open) and reads to EOF",
@@ -139,5 +158,45 @@ PROPS = {
                 "as_reader once / several times, partial read, over-read} with a client that withholds the body until the server has sent something",
         "required_tags": ["st:100", "hold:1", "hold:0"],
         "partial": [], "assumptions": CONN_ASSUMPTIONS,
+    },
+    "C07": {
+        "batches": ctl_batches("queue", 3000, 60000),
+        "replay_bin": "controlled", "oracle_col": "C07", "agree_col": "aC07",
+        "rule": "MessagesQueue of the generated copy under the deterministic scheduler: 1..3 producers (push / unblock at virtual times chosen around the receivers' "
+                "timeout expiry) x 1..4 receivers mixing pop / try_pop / pop_timeout; random schedules incl. timers firing while threads are runnable; "
+                "every run is replayed on the Lean LTS (trace acceptance) and the exactly-once / FIFO / no-lost-wake-up predicate is evaluated on the implementation's history",
+        "required_tags": ["ptimer:0", "ptimer:200", "timedtook:1", "timeoutexp:1", "blocked:1", "left:1", "unblock:1"],
+        "partial": ["theorem: exactly-once/FIFO and no-lost-wake-up invariants of the queue LTS for all schedules",
+                    "that a connection pushes its requests in parse order is the connection-loop model (C12.trace_extends_state); real-thread scheduling is sampled by C06/C11's pristine runs"],
+        "assumptions": CTL_ASSUMPTIONS,
+    },
+    "C17": {
+        "batches": ctl_batches("queue", 3000, 60000),
+        "replay_bin": "controlled", "oracle_col": "C17", "agree_col": "aC17",
+        "rule": "same scenarios as C07 (unblock issued before, while and after receivers block); token accounting, try_pop non-blocking and the recv_timeout bounds are "
+                "evaluated on the implementation's history with virtual-clock durations compared exactly with the LTS",
+        "required_tags": ["ptimer:0", "unblock:1", "timed:1", "timeoutexp:1"],
+        "partial": ["theorem: token conservation, try_recv non-blocking, recv_timeout bounds on the zero-latency LTS", "scheduling latency of real threads is outside the model"],
+        "assumptions": CTL_ASSUMPTIONS,
+    },
+    "C08": {
+        "batches": ctl_batches("pool", 1500, 30000),
+        "replay_bin": "controlled", "oracle_col": "C08", "agree_col": "aC08",
+        "rule": "TaskPool of the generated copy under the deterministic scheduler: bursts of 1..40 tasks (gaps 0 / 10 us / 1 ms / 6 s, before or after the initial workers "
+                "went idle), tasks block on a gate that stays shut (keep-alive connections that never end) or end at once; random schedules; every run replayed on the Lean "
+                "LTS (dispatch branch, which worker starts which task); predicate: every dispatched task started although no task ended",
+        "required_tags": ["tasks:5", "tasks:gt16", "tasks:le4", "newthread:1", "queued:1", "presettle:0", "presettle:1"],
+        "partial": ["theorem: every queued task is claimed by a woken worker (for all burst patterns and schedules); conservation and at-most-once start",
+                    "whole-server isolation over real sockets (N simultaneous keep-alive connections) is sampled by the pristine burst batch"],
+        "assumptions": CTL_ASSUMPTIONS,
+    },
+    "C20": {
+        "batches": ctl_batches("pool", 1500, 30000),
+        "replay_bin": "controlled", "oracle_col": "C20", "agree_col": "aC20",
+        "rule": "same pool scenarios continued: gates opened, virtual time advanced past the idle period, live worker threads counted; then the pool is dropped and time advanced again",
+        "required_tags": ["timeoutwake:1", "burstlive:gt4", "burstlive:le4"],
+        "partial": ["theorem: at most MIN_THREADS untimed waiters / idle pool at baseline / retirement strands no task / accept loop stops after at most one more accept / handed-out requests stay answerable",
+                    "observed only: connect() refused after drop, UNIX socket path removed, real thread counts (/proc/self/task)"],
+        "assumptions": CTL_ASSUMPTIONS,
     },
 }
